@@ -2,7 +2,10 @@ package harness
 
 import (
 	"fmt"
+	"sync"
 	"time"
+
+	"verifsim/simnet"
 
 	"verifsim/simrt"
 )
@@ -63,6 +66,10 @@ func genC17(r *simrt.RNG, tier string, variant int) Plan {
 	// autoResetReader keeps the read deadline alive, because the pongs queue
 	// behind the frame. See DESIGN.md section 6.
 	tok := 1
+	if r.Bool(0.3) {
+		// a result that takes longer than the timeout to encode (healthy family only)
+		p.Ops = append(p.Ops, Op{Kind: "slow", Client: 0, Tok: 90, Phase: r.Intn(3), SleepNs: int64(float64(T) * Pick(r, []float64{0.5, 1.5, 3}))})
+	}
 	nc := 2 + r.Intn(4)
 	for i := 0; i < nc; i++ {
 		op := Op{Kind: "call", Client: 0, Tok: tok, Phase: r.Intn(3)}
@@ -85,6 +92,12 @@ func genC17(r *simrt.RNG, tier string, variant int) Plan {
 		p.Faults = []Fault{{Kind: Pick(r, []string{"blackhole-both", "blackhole"}), Dir: "s2c", Pipe: 0, Frame: -1}}
 		p.Params["bh_after"] = int64(float64(T) * Pick(r, []float64{0.05, 0.7, 2.3, 6}))
 		if r.Bool(0.4) {
+			p.Params["chatter"] = 1
+		}
+		if r.Bool(0.3) {
+			// the peer falls silent on a connection that has just been re-established,
+			// before a single frame arrived on it
+			p.Params["after_reconnect"] = 1
 			p.Params["chatter"] = 1
 		}
 		// calls pending at the black hole must not have been answered yet
@@ -131,7 +144,34 @@ func runC17(e *Env, p *Plan) {
 		if len(f) == 0 {
 			return
 		}
-		e.N.Inject(f[0].Pipe, f[0].Kind, f[0].Dir, 0)
+		if p.Param("after_reconnect", 0) > 0 {
+			var mu sync.Mutex
+			var at time.Duration
+			seen := 0
+			e.N.FaultHook = func(kind string, pipe int) {
+				mu.Lock()
+				seen++
+				if kind == "blackhole-both" && at == 0 {
+					at = e.S.Now()
+				}
+				mu.Unlock()
+			}
+			// reset the first connection; the next one is black-holed before its first
+			// server->client frame is delivered
+			e.N.PlanCutNextK(p.Servers[0].Addr, 0, simnet.Cut{Dir: "s2c", Frame: 0, Pos: "before", Kind: "blackhole-both"})
+			e.N.Inject(0, "rst", "both", 0)
+			ok := e.SettleUntil(func() bool { mu.Lock(); defer mu.Unlock(); return at > 0 }, T/4+time.Millisecond, 3*T+10*dur(p.Clients[0].BackoffMax)+time.Second)
+			mu.Lock()
+			bhAt := at
+			mu.Unlock()
+			if !ok || bhAt == 0 {
+				return // the server sent nothing on the new connection: no black hole happened
+			}
+			e.Probe("black-hole-right-after-reconnect")
+			f[0].Pipe = e.N.NumPipes() - 1
+		} else {
+			e.N.Inject(f[0].Pipe, f[0].Kind, f[0].Dir, 0)
+		}
 		tbh := e.S.Now()
 		bound := 3*T + 2*P
 		if p.Param("chatter", 0) > 0 {
